@@ -110,9 +110,20 @@ func readOnlyCall(c *core.Ctx, r *rng.Rng, s mon.Sketch, m *gen.Map, spec gen.St
 			if r.Bool() {
 				recv = mon.NewSketch(s.Exact, m.M, spec)
 			}
-			recv.I().Add(m.ClampIn(2))
+			near := m.ClampIn(2)
+			if mx, err := k.GetMaxValue(); err == nil && mx > m.Min {
+				near = mx // stay inside the index range the sketch already spans
+			}
+			if r.Bool() {
+				recv.I().Add(near) // else: merge into an empty receiver
+			}
 			recv.MergeWith(s)
-			recv.I().Add(m.ClampIn(3))
+			// the receiver keeps being used: nothing of it may alias the argument
+			recv.I().Add(near)
+			recv.I().AddWithCount(-near, 3)
+			recv.I().Reweight(2)
+			recv.I().Clear()
+			recv.I().Add(near)
 		case 14:
 			name = "as_change_mapping_source"
 			if !safeCM {
@@ -126,7 +137,11 @@ func readOnlyCall(c *core.Ctx, r *rng.Rng, s mon.Sketch, m *gen.Map, spec gen.St
 				nm, scale = m, 1
 			}
 			out := s.ChangeMapping(nm.M, gen.RandPlainStore(r), scale)
+			// the result keeps being used: nothing of it may alias the source
 			out.I().GetCount()
+			out.I().Add(nm.ClampIn(2))
+			out.I().Reweight(4)
+			out.I().Clear()
 		default:
 			name = "store.Encode/ForEach"
 			var b []byte
